@@ -19,7 +19,19 @@ pub fn gen_error_kind(g: &mut G<'_>) -> u16 {
 }
 
 pub fn gen_error_msg(g: &mut G<'_>) -> Vec<u8> {
-    match g.weighted(&[4, 4, 2, 1, 1]) {
+    match g.weighted(&[8, 8, 4, 2, 2, 1]) {
+        5 => {
+            // messages that echo a long statement: around the buffer sizes implementations like
+            // (4, 8, 16, 64 KiB), so that the ERR packet is the largest packet of its reply
+            let n = match g.below(5) {
+                0 => g.usize_in(1000, 5000),
+                1 => g.usize_in(8150, 8220),
+                2 => g.usize_in(16_360, 16_400),
+                3 => g.usize_in(4070, 4110),
+                _ => g.usize_in(65_500, 70_000),
+            };
+            crate::gen::pattern(g.raw(), n)
+        }
         0 => b"boom".to_vec(),
         1 => {
             let n = g.usize_in(0, 40);
